@@ -94,6 +94,8 @@ pub trait Tbl:
     fn t_from_hex_string(n: usize, s: &str) -> Result<Self, ()>;
     fn t_all_functions(n: usize) -> Box<dyn Iterator<Item = Self>>;
     fn t_iter_from(start: &Self) -> Box<dyn Iterator<Item = Self>>;
+    /// an `Iterator`-method script (see iterprobe.rs) on the concrete iterator type, fresh or positioned
+    fn t_iter_script(n: usize, start: Option<&Self>, script: &[(u64, u64)]) -> Vec<crate::iterprobe::Obs>;
     fn t_from_cofactors(c0: &Self, c1: &Self, i: usize) -> Self;
     fn t_bdd_complexity(l: &[Self]) -> usize;
 
@@ -406,6 +408,12 @@ impl Tbl for Lut {
     fn t_iter_from(start: &Self) -> Box<dyn Iterator<Item = Self>> {
         Box::new(Lut::verif_iter_from(start))
     }
+    fn t_iter_script(n: usize, start: Option<&Self>, script: &[(u64, u64)]) -> Vec<crate::iterprobe::Obs> {
+        match start {
+            None => crate::iterprobe::run_script(Lut::all_functions(n), script),
+            Some(s) => crate::iterprobe::run_script(Lut::verif_iter_from(s), script),
+        }
+    }
     fn t_p_canon(&self) -> (Self, Vec<u8>) {
         self.p_canonization()
     }
@@ -477,6 +485,13 @@ impl<const N: usize, const T: usize> Tbl for StaticLut<N, T> {
     }
     fn t_iter_from(start: &Self) -> Box<dyn Iterator<Item = Self>> {
         Box::new(Self::verif_iter_from(start))
+    }
+    fn t_iter_script(n: usize, start: Option<&Self>, script: &[(u64, u64)]) -> Vec<crate::iterprobe::Obs> {
+        assert_eq!(n, N, "harness: size dispatch");
+        match start {
+            None => crate::iterprobe::run_script(Self::all_functions(), script),
+            Some(s) => crate::iterprobe::run_script(Self::verif_iter_from(s), script),
+        }
     }
     fn t_p_canon(&self) -> (Self, Vec<u8>) {
         let (r, p) = self.p_canonization();
